@@ -25,21 +25,6 @@ type Case struct {
 
 var input = gprog.Val{"in": "x"}
 
-func classify(err error) string {
-	if err == nil {
-		return ""
-	}
-	s := err.Error()
-	switch {
-	case strings.Contains(s, compose.ErrExceedMaxSteps.Error()):
-		return gprog.ErrMaxSteps
-	case strings.Contains(s, "duplicated key"):
-		return gprog.ErrConflict
-	case strings.Contains(s, "no tasks to execute"):
-		return gprog.ErrNoTasks
-	}
-	return "other: " + s
-}
 
 // runImpl executes one trace on the real implementation.
 func runImpl(r compose.Runnable[gprog.Val, gprog.Val], cs *Case) (res gprog.Val, err error, log []gprog.Entry) {
@@ -62,13 +47,13 @@ func runImpl(r compose.Runnable[gprog.Val, gprog.Val], cs *Case) (res gprog.Val,
 }
 
 func compare(o *gprog.Outcome, res gprog.Val, err error, log []gprog.Entry, stream bool) error {
-	ic := classify(err)
+	ic := gprog.Classify(err)
 	if o.Err == gprog.ErrConflict && stream {
 		// streamed fan-in concatenates map chunks per key instead of rejecting duplicate keys; the statement
 		// does not define duplicate-key merges: only demand termination (which we have) and stop here
 		return nil
 	}
-	if ic != o.Err {
+	if !gprog.SameClass(o.Err, err) {
 		return fmt.Errorf("model outcome %q, implementation %q (err=%v, result=%s)", o.Err, ic, err, gprog.Canon(res))
 	}
 	if o.Err == "" && gprog.Canon(res) != gprog.Canon(o.Result) {
